@@ -39,7 +39,18 @@ enum BaseKind {
     Malformed,
 }
 
-const SENTINEL: &str = "SENTINEL: this file must survive a failing run\n";
+/// The pre-existing target is longer than any generated document, so that a write that does not
+/// truncate shows, too.
+fn sentinel() -> &'static str {
+    static S: std::sync::OnceLock<String> = std::sync::OnceLock::new();
+    S.get_or_init(|| {
+        let mut s = String::from("SENTINEL: this file must survive a failing run\n");
+        for i in 0..6000 {
+            s.push_str(&format!("# padding line {i}\n"));
+        }
+        s
+    })
+}
 
 fn gen_case(tape: &mut Tape) -> (&'static str, Sources) {
     let single = tape.chance(1, 3);
@@ -127,8 +138,8 @@ fn setup(dir: &Scratch, sources: &Sources, cfg: Cfg, base: BaseKind, base_yaml: 
         BaseKind::Malformed => dir.write("base.yaml", "openapi: [unclosed\n  info: {"),
     }
     if target_exists {
-        dir.write("out.yaml", SENTINEL);
-        dir.write("wrong.yaml", SENTINEL);
+        dir.write("out.yaml", sentinel());
+        dir.write("wrong.yaml", sentinel());
     }
     let base_line = |prefix: &str| if base == BaseKind::None { String::new() } else { format!("base = \"{prefix}base.yaml\"\n") };
     let main = &sources.main;
@@ -203,13 +214,13 @@ pub fn check_case(sources: &Sources, class: &str, cfg_ix: usize, base_ix: usize,
             r.fail(Failure::new("c13:success-without-target", "oal-cli exits with 0 but the target does not exist".to_owned()));
             return;
         };
-        if text.as_str() == SENTINEL {
+        if text.as_str() == sentinel() {
             r.fail(Failure::new("c13:success-without-target", "oal-cli exits with 0 but the target was not written".to_owned()));
             return;
         }
         if cfg == Cfg::ConfOverridden {
             let w = std::fs::read_to_string(&wrong).ok();
-            if w.as_deref() != if target_exists { Some(SENTINEL) } else { None } {
+            if w.as_deref() != if target_exists { Some(sentinel()) } else { None } {
                 r.fail(Failure::new("c13:option-does-not-override-config", "the target named in the configuration file was written although -t names another one".to_owned()));
                 return;
             }
@@ -240,11 +251,11 @@ pub fn check_case(sources: &Sources, class: &str, cfg_ix: usize, base_ix: usize,
         // (2) a failing run leaves the target alone.
         if target_exists {
             let mtime_after = std::fs::metadata(&target).and_then(|m| m.modified()).ok();
-            if target_text.as_deref() != Some(SENTINEL) || mtime_after != mtime_before {
+            if target_text.as_deref() != Some(sentinel()) || mtime_after != mtime_before {
                 r.fail(Failure::new("c13:target-touched-on-failure", "oal-cli exits with 1 but the existing target was modified".to_owned()));
                 return;
             }
-            if std::fs::read_to_string(&wrong).ok().as_deref() != Some(SENTINEL) {
+            if std::fs::read_to_string(&wrong).ok().as_deref() != Some(sentinel()) {
                 r.fail(Failure::new("c13:target-touched-on-failure", "oal-cli exits with 1 but the configured target was modified".to_owned()));
                 return;
             }
